@@ -47,6 +47,7 @@ macro_rules! nd_int {
 nd_int!(u8, 1);
 nd_int!(u16, 2);
 nd_int!(u32, 4);
+nd_int!(i32, 4);
 nd_int!(u64, 8);
 nd_int!(u128, 16);
 nd_int!(usize, 8);
